@@ -180,6 +180,10 @@ impl Property for C17 {
             }
         };
         let model = CharDefModel::parse(&text);
+        if model.unknown_class_tokens {
+            rep.class("file with a token that is not a class name (not judged)");
+            return rep;
+        }
         let mut pts: Vec<u32> = vec![0, 0x10FFFF];
         for l in &model.ranges {
             for p in [l.begin, l.end] {
